@@ -1,7 +1,7 @@
 #!/bin/sh
 # Runs the repository's pinned test suite (guard off) and compares with BASELINE.json stable_pass.
 OUT=${1:-/tmp/baseline_junit.xml}
-cd /repo && env -u MIROS_VERIF /venv/bin/python -m pytest -ra -q -p no:cacheprovider --timeout=900 --continue-on-collection-errors --junitxml=$OUT > ${OUT}.log 2>&1
+cd ${REPO_DIR:-/repo} && env -u MIROS_VERIF /venv/bin/python -m pytest -ra -q -p no:cacheprovider --timeout=900 --continue-on-collection-errors --junitxml=$OUT > ${OUT}.log 2>&1
 /venv/bin/python - "$OUT" <<'PY'
 import sys, json, xml.etree.ElementTree as ET
 base = json.load(open('/root/.vp/BASELINE.json'))
